@@ -5,6 +5,7 @@ import (
 	"fmt"
 	"sort"
 	"strings"
+	"time"
 
 	"github.com/flosch/pongo2/v6"
 
@@ -58,8 +59,28 @@ func ctxFor(m string) pongo2.Context {
 		// a value Go code marked safe (its own markup), to be combined with tainted text
 		"sv":  pongo2.AsSafeValue("<u>"),
 		"svl": []*pongo2.Value{pongo2.AsSafeValue("<u>"), pongo2.AsSafeValue("<b>")},
+		// a named string type whose own text is harmless while its String method returns the context's text
+		"tagd": taggedT{text: m}.named(), "ptagd": taggedT{text: m}.namedPtr(), "tagl": []taggedName{taggedT{text: m}.named()},
+		// the same pointer-receiver Stringer type by value (not a Stringer) and behind a pointer (a Stringer)
+		"ptv": []ptrStringerT{{"harmless"}}, "ptp": &ptrStringerT{m},
 	}
 }
+
+// taggedName prints as the text registered for it (the underlying string stays a harmless key)
+type taggedName string
+
+var taggedTexts = map[taggedName]string{}
+
+func (n taggedName) String() string { return taggedTexts[n] }
+
+type taggedT struct{ text string }
+
+func (t taggedT) named() taggedName {
+	taggedTexts["key"] = t.text
+	return taggedName("key")
+}
+
+func (t taggedT) namedPtr() *taggedName { n := t.named(); return &n }
 
 type ptrStringerT struct{ s string }
 
@@ -293,6 +314,10 @@ func sinks() []sink {
 		{"filter-tag-param-join", func(e string) string { return "{% filter default:l|join:\",\" %}{% endfilter %}{{ " + e + " }}" }},
 		{"filter-tag-param-first", func(e string) string { return "{% filter default:la|first %}{% endfilter %}{{ " + e + " }}" }},
 		{"filter-tag-param-list", func(e string) string { return "{% filter default:l %}{% endfilter %}{{ " + e + " }}" }},
+		// a list written in the template as parameter: its items are the context's text all the same
+		{"filter-tag-param-written-list", func(e string) string {
+			return "{% filter default:[" + atom(e) + ", 1]|first %}{% endfilter %}{% filter default:[" + atom(e) + "]|join:\"\" %}{% endfilter %}{% set wl = [" + atom(e) + "] %}{% filter default:wl|last %}{% endfilter %}"
+		}},
 		{"widthratio-noise", func(e string) string { return "{% widthratio 1 2 100 %}{{ " + e + " }}" }},
 	}
 }
@@ -548,6 +573,14 @@ func run(r *eng.Runner) {
 		for _, p := range progs {
 			r.Do(&Case{Files: map[string]string{"/main": p.src}, Label: s.name + ">tag>" + p.sink, Route: routeKey(s.name, []string{"tag-argument"}, p.sink)})
 		}
+	}
+	r.Group("stringer-kinds", "c02.case", "a named string type whose text is harmless while its String method returns the context's text (value, pointer, list item, after set, as macro argument); one pointer-receiver Stringer type printed by value first and behind a pointer afterwards; each in a fresh process")
+	for i, src := range []string{
+		"{{ tagd }}|{{ ptagd }}|{% for x in tagl %}{{ x }}{% endfor %}|{% set q = tagd %}{{ q }}|{% macro mm(a) %}{{ a }}{% endmacro %}{{ mm(tagd) }}|{% firstof tagd %}|{{ [tagd]|first }}",
+		"{% for x in ptv %}{{ x }}{% endfor %}|{{ ptp }}|{% firstof ptp %}|{% for x in ptv %}{{ x }}{% endfor %}{{ ptp }}",
+		"{{ ptp }}|{% for x in ptv %}{{ x }}{% endfor %}|{{ ptp }}",
+	} {
+		r.DoIsolated(&Case{Files: map[string]string{"/main": src}, Label: fmt.Sprint("stringer-kinds", i), Route: fmt.Sprint("stringer-kinds/", i)}, 60*time.Second)
 	}
 	r.Group("default-switched", "c02.case", "templates compiled while the package-wide default was off (SetAutoescape(false)) and executed after it was switched on again: every source printed directly, in a loop over a literal, by firstof, inside a statically included file, an extended base and an imported macro; the same sinks with a context text that looks escaped already (x&lt;y&#60;z&amp;w): its ampersands are escaped like any other")
 	for _, s := range srcs {
